@@ -376,10 +376,11 @@ def run(ctx):
     exe = harness(ctx)
     cfgs = ["StrObj_quick.cfg"] if ctx.tier == "quick" else ["StrObj_thorough.cfg", "StrObj_thorough2.cfg"]
     walks = (200, 40) if ctx.tier == "quick" else (3000, 60)
+    pairs = 60000 if ctx.tier == "quick" else 600000      # 2-step cover (hidden capacity / stale bytes depend on the history)
     for cfg in cfgs:
         g, res = objcheck.tlc_graph(ctx, MODULE, cfg, workers=4, timeout=3000)
         for cls in CLASSES:
-            lp = objcheck.replay_cover(ctx, g, [tok(INIT)], exe, cls, [cls], keyfn, walks=walks)
+            lp = objcheck.replay_cover(ctx, g, [tok(INIT)], exe, cls, [cls], keyfn, walks=walks, pairs=pairs)
             label = "%s:%s" % (cls, cfg)
             ctx.cov["replay"][label] = ctx.cov["replay"].pop(cls)
             extra_passes(ctx, g, lp, exe, cls, label)
